@@ -19,7 +19,7 @@ import re
 import vlib
 
 KF_FALLBACK = os.path.join(vlib.VERIF, "build", "kf-C16.json")
-FINDING_ID = "test-with-params-or-async-not-executed"   # what remains after the repair of test-body-never-run
+FINDING_ID = "test-with-params-not-executed"   # what remains after the repair of test-body-never-run
 FIXED_ID = "test-body-never-run"
 
 # ------------------------------------------------------------------------------------------------
@@ -66,8 +66,9 @@ class Other:
 class TFile:
     """A file of the generated tree."""
 
-    def __init__(self, name, marker, decls=None, broken=None, typeerr=False, imports=""):
+    def __init__(self, name, marker, decls=None, broken=None, typeerr=False, imports="", rust_broken=False):
         self.name, self.marker, self.decls, self.broken, self.typeerr, self.imports = name, marker, decls or [], broken, typeerr, imports
+        self.rust_broken = rust_broken   # type-checks, but the generated Cargo project does not build (real-cargo runs only)
 
     def text(self):
         if self.broken == "syntax":
@@ -86,7 +87,7 @@ class TFile:
         return ds
 
     def compiles(self):
-        return self.broken is None and not self.typeerr
+        return self.broken is None and not self.typeerr and not self.rust_broken
 
 
 class TDir:
@@ -593,12 +594,20 @@ def truth_files(tier):
     tp = {"test_fixture_param_body_fails": False, "test_fixture_param_body_passes": True}
     sets = [(trio, truth, []), (fp, tp, [])]
     if tier == "thorough":
-        fa = TFile("test_truth_async.incn", 5, [
-            Fn("test_async_body_fails", body="assert_eq(1, 2)", is_async=True),
+        fz = TFile("test_truth_parametrize.incn", 5, [
             Fn("test_parametrized_body_fails", decs=[("parametrize", ("raw", '"v", [1, 2]'))], params=["v"], body="assert_eq(v, 0)"),
-            Fn("test_plain_next_to_them_fails", body="assert_eq(1, 2)"),
+            Fn("test_plain_next_to_it_fails", body="assert_eq(1, 2)"),
+            Fn("test_plain_next_to_it_passes", body="assert_eq(2, 2)"),
         ], imports=TRUTH_IMPORT)
-        sets.append((fa, {"test_async_body_fails": False, "test_parametrized_body_fails": False, "test_plain_next_to_them_fails": False}, []))
+        sets.append((fz, {"test_parametrized_body_fails": False, "test_plain_next_to_it_fails": False, "test_plain_next_to_it_passes": True}, []))
+        # a file with an async function: the test project generated by run_single_test lacks the tokio
+        # dependency its `use tokio::...` lines need, so nothing in the file builds and every test is FAILED
+        # (loud, hence truthful; the async test is outside the known class because compiles = false)
+        fa = TFile("test_truth_async.incn", 6, [
+            Fn("test_async_body_fails", body="assert_eq(1, 2)", is_async=True),
+            Fn("test_plain_in_async_file_passes", body="assert_eq(1, 1)"),
+        ], imports=TRUTH_IMPORT, rust_broken=True)
+        sets.append((fa, {"test_async_body_fails": False, "test_plain_in_async_file_passes": True}, []))
         f2 = TFile("test_truth2.incn", 2, [
             Fn("test_xfail_body_fails", decs=[("xfail", ("pos", "known"))], body="assert_true(false)"),
             Fn("test_xfail_body_passes", decs=[("xfail", ("pos", "known"))], body="assert_true(true)"),
@@ -791,10 +800,6 @@ def fixed_cases():
 
 
 def run(chk):
-    if os.path.exists(KF_FALLBACK):
-        # TEMPORARY OVERRIDE (lead: drop these lines after merging build/kf-C16.json into known_findings.json;
-        # while the file exists it replaces the C16 entries of known_findings.json)
-        chk.findings = [f for f in json.load(open(KF_FALLBACK)) if f.get("property") == "C16"]
     chk.trusted = [
         "Coq 8.16.1 kernel (coqc; vm_compute for closed witnesses and for evaluating the model in the correspondence run)",
         "hand-written C16/Model.v for discover_test_files / discover_tests_and_fixtures / the filter, verdict loop, summary and exit code of run_tests (tied by correspondence, not generated)",
@@ -804,7 +809,7 @@ def run(chk):
     ]
     chk.assumptions = [
         "run_single_test is modelled as an explicit argument run : test -> raw; for the stub it is the scripted exit status (and `false` when the file does not type-check), for the real cargo it is raw_of_harness with runs_body measured from the generated main.rs",
-        "harness truth (Passed only if the body ran to completion) is proved relative to raw_of_harness harness_runs_body (tied: #[test] on the selected function is read off every generated main.rs); it holds for parameterless non-async tests (C16_truthful_for_plain_tests) and is refuted for tests with parameters/fixtures and async tests, which the generated harness does not execute (known finding test-with-params-or-async-not-executed)",
+        "harness truth (Passed only if the body ran to completion) is proved relative to raw_of_harness harness_runs_body (tied: #[test] on the selected function is read off every generated main.rs); it holds for parameterless non-async tests (C16_truthful_for_plain_tests) and is refuted for tests with parameters/fixtures and async tests, which the generated harness does not execute (known finding test-with-params-not-executed; files with an async function do not build in the generated test project, so async tests are FAILED, outside the class)",
         "exit status 1 for 'no test files found' and for --fail-on-empty is the documented table (C16_exit_documented); C16_exit_nonzero_iff covers runs that collected at least one test",
         "test files that do not lex/parse are dropped with a message on stderr and do not affect the exit status (modelled as observed; the property statement does not cover them)",
         "@parametrize is not expanded and fixtures are never injected by the runner (modelled as observed: one verdict per function)",
@@ -813,6 +818,8 @@ def run(chk):
     binary = vlib.build_harness("debug")
 
     n_rand = 120 if chk.tier == "quick" else 1500
+    if os.environ.get("C16_NRAND", "").isdigit():      # debugging aid: smaller/larger PRNG stream
+        n_rand = int(os.environ["C16_NRAND"])
     cases = fixed_cases()
     for _ in range(n_rand):
         cases.append(gen_case(chk.rng, len(cases)))
